@@ -53,6 +53,12 @@ class Injector:
         self._wrap(b, "retrieve_invocation", "pop", only_if_result=True)
         self._wrap(o.blocking_control, "waiting_for_results", "wait")
 
+    def effect_gate(self, label: str) -> None:
+        """an extra (non-backend) step of the acting thread that a crash can precede, e.g. a blocking join"""
+        self._gate(label)
+        if threading.get_ident() == self.actor:
+            self.effects.append(label)
+
     def _gate(self, label: str) -> None:
         if threading.get_ident() != self.actor:
             return
@@ -219,7 +225,37 @@ def scenarios() -> list[Scenario]:
     def after_cc(app, st):
         app.orchestrator.set_invocation_status(st["other"], S.SUCCESS, rctx("rB"))
 
+    def setup_stop(app):
+        from pynenc.runner.thread_runner import ThreadInfo
+
+        inv = accepted(app)
+        got = list(app.orchestrator.get_invocations_to_run(1, rctx(app.runner.runner_id)))
+        app.orchestrator.set_invocation_status(inv.invocation_id, S.RUNNING, rctx(app.runner.runner_id))
+        runner = app.runner
+        runner._on_start()
+
+        class Alive:                       # the task thread is alive (in its body) for the whole stop procedure
+            name = "task-thread"
+
+            def __init__(self):
+                self.inj = None
+
+            def is_alive(self):
+                return True
+
+            def join(self, timeout=None):
+                if self.inj is not None:
+                    self.inj.effect_gate("join")
+
+        th = Alive()
+        runner.threads = {inv.invocation_id: ThreadInfo(th, got[0])}
+        return {"target": inv.invocation_id, "shim": th}
+
+    def actor_stop(app, st):
+        app.runner._on_stop()
+
     return [
+        Scenario("thread-runner-stop", "", ("running", 0), setup_stop, actor_stop),
         Scenario("runner-claiming", "pollClaim", ("registered", 1), setup_poll, actor_poll),
         Scenario("worker-success", "runOk", ("pending", 0), setup_run("ok"), actor_run),
         Scenario("worker-failure", "runFail", ("pending", 0), setup_run("fail"), actor_run),
@@ -229,6 +265,59 @@ def scenarios() -> list[Scenario]:
         Scenario("running-recovery-task", "recoverPending", ("running", 0), setup_recover("running"), actor_recover("running")),
         Scenario("reroute-on-concurrency-control", "", ("registered", 1), setup_cc, lambda app, st: list(app.orchestrator.get_invocations_to_run(1, cA)), after_cc),
     ]
+
+
+def worker_loop_consumption(ctx: Ctx) -> None:
+    """fault-free: the REAL worker loop of the persistent-process runner consumes a queue holding a concurrency-blocked invocation
+    followed by a runnable one; once the blocking invocation finishes, the blocked one must still complete (nothing may be left
+    non-final, un-queued and un-owned by the way a runner consumes `get_invocations_to_run`)"""
+    import signal as _signal
+
+    from pynenc.conf.config_task import ConcurrencyControlType as C
+    from pynenc.invocation.status import InvocationStatus as S
+    from pynenc.runner import persistent_process_runner as ppr
+
+    for kind in ("sqlite",):       # the persistent-process runner is not compatible with the in-memory components
+        app = make_app(kind, ctx.tmp, app_id=f"c03ppr{kind}", runner_cls="PersistentProcessRunner")
+        excl = app.task(T.c03_body, running_concurrency=C.TASK, reroute_on_concurrency_control=True)
+        plain = app.task(T.add)
+        a1, a2, b1 = excl("ok"), excl("ok"), plain(1)
+        assert app.broker.retrieve_invocation() == a1.invocation_id
+        from harness.apps import inject_status as _inj
+
+        _inj(app, a1.invocation_id, S.RUNNING, "rOther", 0)
+        app.orchestrator.register_runner_heartbeats(["rOther"])
+        stop = threading.Event()
+
+        def director() -> None:
+            t0 = _time.time()
+            while _time.time() - t0 < 8 and not app.orchestrator.get_invocation_status(b1.invocation_id).is_final():
+                _time.sleep(0.01)
+            app.orchestrator.set_invocation_status(a1.invocation_id, S.SUCCESS, rctx("rOther"))
+            t0 = _time.time()
+            while _time.time() - t0 < 8 and not app.orchestrator.get_invocation_status(a2.invocation_id).is_final():
+                _time.sleep(0.01)
+            stop.set()
+
+        th = threading.Thread(target=director, daemon=True)
+        th.start()
+        old = _signal.getsignal(_signal.SIGTERM)
+        try:
+            ppr.persistent_process_main(app, runner_cache={}, stop_event=stop, parent_runner_ctx_json=rctx("rParent").to_json(), child_runner_id="rChild")
+        finally:
+            _signal.signal(_signal.SIGTERM, old)
+        th.join(20)
+        flush(app)
+        ctx.count()
+        st = {n: app.orchestrator.get_invocation_status(i.invocation_id).value for n, i in (("a1", a1), ("a2", a2), ("b1", b1))}
+        ctx.distinct((kind, "ppr-loop", tuple(st.values())))
+        if st["a2"] not in ("success", "failed", "concurrency_controlled_final"):
+            q = []
+            while (x := app.broker.retrieve_invocation()) is not None:
+                q.append(x)
+            ctx.report(f"no-crash:worker-loop-strands-blocked[{kind}]",
+                       f"[{kind}] fault-free: persistent-process worker loop, queue [blocked A2, runnable B1] with A1 running elsewhere: after A1 finished A2 is {st['a2']} "
+                       f"(queued: {a2.invocation_id in q}) — a blocked invocation was left behind by the way the worker consumes get_invocations_to_run", {"backend": kind, "statuses": st})
 
 
 def run(ctx: Ctx) -> None:
@@ -254,7 +343,8 @@ def run(ctx: Ctx) -> None:
                     table = [x == "1" for x in line.split("|")[0].split()]
                 k = 0
                 while True:
-                    app = make_app(kind, ctx.tmp, app_id=f"c03{kind}{sc.name}{k}", max_pending_seconds=5.0, runner_considered_dead_after_minutes=0.5)
+                    app = make_app(kind, ctx.tmp, app_id=f"c03{kind}{sc.name}{k}", max_pending_seconds=5.0, runner_considered_dead_after_minutes=0.5,
+                                   runner_cls="ThreadRunner")
                     T.C03_DONE.clear()
                     st = sc.setup(app)
                     app.orchestrator.register_runner_heartbeats(["rA"])
@@ -262,6 +352,8 @@ def run(ctx: Ctx) -> None:
                         clock.advance(3_600_000_000)       # the dead runner's work is stale before the recovery task starts
                         app.orchestrator.register_runner_heartbeats(["rA"])
                     inj = Injector(app)
+                    if "shim" in st:
+                        st["shim"].inj = inj
                     crashed = inj.run_actor(lambda: sc.actor(app, st), k)
                     rel = inj.rel_done
                     effects = list(inj.effects)
@@ -299,6 +391,7 @@ def run(ctx: Ctx) -> None:
                     if k > 40:
                         break
                 ctx.sample({"backend": kind, "role": sc.name, "crash_points": k + 1, "model_table": table})
+        worker_loop_consumption(ctx)
         ctx.obligation(f"crash-point table: Lean classification == outcome of the real crash replay on Mem and SQLite ({points} points)", nd == 0, f"{nd} disagreements")
     finally:
         clock.uninstall()
